@@ -10,6 +10,8 @@ import (
 	"bytes"
 	"context"
 	"fmt"
+	"reflect"
+	"runtime"
 	"time"
 
 	"github.com/pilosa/pilosa"
@@ -18,6 +20,227 @@ import (
 )
 
 func init() { pilosa.C06External = c06ClusterMessages }
+
+// ---- part M2: WELL-FORMED but semantically adversarial messages ---------------------------------
+// Every valid sample message is perturbed in ONE field at a time, at the level of the Go message
+// structs (found by reflection, so new message fields are covered automatically): every string
+// (index, field, view, node id, state ...) becomes a name nobody knows, every number becomes its
+// maximum, every pointer and slice becomes nil / empty. Each variant is encoded with the real
+// serializer and handed to API.ClusterMessage of a fresh single-node server. Handlers hand work
+// to detached goroutines (mergeRemoteStatus, resize followers), so the harness waits for the
+// goroutine count to settle before the next case; a worker that dies is attributed through the
+// progress file.
+
+type c06Mut struct {
+	sample int
+	path   []int
+	how    string // "ghost" | "max" | "nil" | "empty-string"
+}
+
+func c06RichSamples() []pilosa.Message {
+	ss := c06Samples()
+	uri := pilosa.URI{Scheme: "http", Host: "h2", Port: 2}
+	other := &pilosa.Node{ID: "n2", URI: uri, State: "READY"}
+	ss = append(ss, &pilosa.NodeStatus{Node: other,
+		Indexes: []*pilosa.IndexStatus{{Name: "i", Fields: []*pilosa.FieldStatus{{Name: "f"}}}},
+		Schema:  &pilosa.Schema{Indexes: []*pilosa.IndexInfo{{Name: "i", Fields: []*pilosa.FieldInfo{{Name: "f", Options: pilosa.FieldOptions{Type: "set", CacheType: "ranked", CacheSize: 10}}}}}}})
+	ss = append(ss, &pilosa.NodeEvent{Event: 1, Node: other}, &pilosa.NodeEvent{Event: 2, Node: other})
+	return ss
+}
+
+func c06Walk(v reflect.Value, path []int, visit func(path []int, v reflect.Value)) {
+	switch v.Kind() {
+	case reflect.Ptr:
+		if v.IsNil() {
+			return
+		}
+		if len(path) > 0 {
+			visit(path, v)
+		}
+		c06Walk(v.Elem(), path, visit)
+	case reflect.Struct:
+		for i := 0; i < v.NumField(); i++ {
+			if v.Type().Field(i).PkgPath != "" {
+				continue // unexported
+			}
+			c06Walk(v.Field(i), append(append([]int(nil), path...), i), visit)
+		}
+	case reflect.Slice:
+		if v.Len() > 0 {
+			visit(path, v)
+		}
+		for j := 0; j < v.Len(); j++ {
+			c06Walk(v.Index(j), append(append([]int(nil), path...), j), visit)
+		}
+	case reflect.String, reflect.Uint64, reflect.Int64, reflect.Int, reflect.Uint32, reflect.Int32:
+		visit(path, v)
+	}
+}
+
+func c06Navigate(v reflect.Value, path []int) reflect.Value {
+	for _, idx := range path {
+		for v.Kind() == reflect.Ptr {
+			v = v.Elem()
+		}
+		switch v.Kind() {
+		case reflect.Struct:
+			v = v.Field(idx)
+		case reflect.Slice:
+			v = v.Index(idx)
+		}
+	}
+	return v
+}
+
+func c06Mutations() []c06Mut {
+	var out []c06Mut
+	for si, m := range c06RichSamples() {
+		c06Walk(reflect.ValueOf(m), nil, func(path []int, v reflect.Value) {
+			p := append([]int(nil), path...)
+			switch v.Kind() {
+			case reflect.String:
+				out = append(out, c06Mut{si, p, "ghost"}, c06Mut{si, p, "empty-string"})
+			case reflect.Ptr, reflect.Slice:
+				out = append(out, c06Mut{si, p, "nil"})
+			default:
+				out = append(out, c06Mut{si, p, "max"})
+			}
+		})
+	}
+	return out
+}
+
+func c06ApplyMutation(mu c06Mut) (pilosa.Message, string) {
+	m := c06RichSamples()[mu.sample]
+	v := c06Navigate(reflect.ValueOf(m), mu.path)
+	// describe the path by field names
+	desc := fmt.Sprintf("%T", m)
+	w := reflect.ValueOf(m)
+	for _, idx := range mu.path {
+		for w.Kind() == reflect.Ptr {
+			w = w.Elem()
+		}
+		if w.Kind() == reflect.Struct {
+			desc += "." + w.Type().Field(idx).Name
+			w = w.Field(idx)
+		} else {
+			desc += fmt.Sprintf("[%d]", idx)
+			w = w.Index(idx)
+		}
+	}
+	switch mu.how {
+	case "ghost":
+		v.SetString("ghost")
+	case "empty-string":
+		v.SetString("")
+	case "nil":
+		v.Set(reflect.Zero(v.Type()))
+	case "max":
+		switch v.Kind() {
+		case reflect.Uint64, reflect.Uint32:
+			v.SetUint(^uint64(0) >> (64 - uint(v.Type().Bits())))
+		default:
+			v.SetInt(int64(^uint64(0) >> (65 - uint(v.Type().Bits()))))
+		}
+	}
+	return m, desc + " := " + mu.how
+}
+
+func c06Settle(base int) {
+	for i := 0; i < 400 && runtime.NumGoroutine() > base; i++ {
+		runtime.Gosched()
+		if i > 50 {
+			time.Sleep(time.Millisecond)
+		}
+	}
+}
+
+func c06WellFormed(c *vx.Check, progDir string) {
+	ser := proto.Serializer{}
+	muts := c06Mutations()
+	c.Bound("cluster_message_field_mutations", len(muts))
+	chunk := 8
+	c.ProcFor(c.NextRunLabel(), (len(muts)+chunk-1)/chunk, []byte(progDir), func(in []byte, ci int, _ func([]byte)) {
+		prog := pilosa.C06Progress(string(in))
+		for k := ci * chunk; k < (ci+1)*chunk && k < len(muts); k++ {
+			m, desc := c06ApplyMutation(muts[k])
+			var msg []byte
+			var err error
+			// a nil ELEMENT inside a repeated field is not a message the generated encoder can write
+			// (it panics): such a variant cannot arrive from a peer and is skipped
+			if pan := vx.Guard(func() { msg, err = pilosa.MarshalInternalMessage(m, ser) }); pan != "" || err != nil {
+				c.Outcome("ClusterMessage(well-formed)|unencodable")
+				continue
+			}
+			srv, err := pilosa.NewServer(pilosa.OptServerDataDir(vx.Scratch()), pilosa.OptServerNodeID("node0"), pilosa.OptServerIsCoordinator(true),
+				pilosa.OptServerSerializer(ser), pilosa.OptServerTranslateFileMapSize(1<<20))
+			if err != nil {
+				panic(err)
+			}
+			if err := srv.Open(); err != nil {
+				panic(err)
+			}
+			api, err := pilosa.NewAPI(pilosa.OptAPIServer(srv))
+			if err != nil {
+				panic(err)
+			}
+			if _, err := api.CreateIndex(context.Background(), "i", pilosa.IndexOptions{}); err != nil {
+				panic(err)
+			}
+			if _, err := api.CreateField(context.Background(), "i", "f", pilosa.OptFieldTypeDefault()); err != nil {
+				panic(err)
+			}
+			if _, err := api.Query(context.Background(), &pilosa.QueryRequest{Index: "i", Query: "Set(1, f=1)"}); err != nil {
+				panic(err)
+			}
+			c06Settle(0) // let start-up goroutines reach their steady state
+			base := runtime.NumGoroutine()
+			prog("ClusterMessage(well-formed) <- " + desc)
+			c.AddEval(1)
+			var herr error
+			pan := vx.Guard(func() { herr = api.ClusterMessage(context.Background(), bytes.NewReader(msg)) })
+			c06Settle(base)
+			cls := "ok"
+			switch {
+			case pan != "":
+				cls = "panic"
+				c.Violate(fmt.Sprintf("panic entry=ClusterMessage(well-formed) message=%T", m), desc, pan+" (the gossip delegate calls ClusterMessage from a goroutine without recover: the server process exits)", "message handled or rejected with an error")
+			case herr != nil:
+				cls = "error"
+			}
+			// the node must still serve afterwards (no lock left held)
+			done := make(chan struct{})
+			go func() {
+				defer close(done)
+				vx.Guard(func() { api.Query(context.Background(), &pilosa.QueryRequest{Index: "i", Query: "Count(Row(f=1))"}) })
+				vx.Guard(func() { api.Schema(context.Background()) })
+			}()
+			select {
+			case <-done:
+			case <-time.After(90 * time.Second):
+				c.Violate(fmt.Sprintf("lock-not-released entry=ClusterMessage(well-formed) message=%T", m), desc, "follow-up query / schema read did not complete", "served")
+				return
+			}
+			c.Outcome("ClusterMessage(well-formed)|" + cls)
+			c.Distinct(fmt.Sprintf("ClusterMessage(well-formed)|%s|%T|%s", cls, m, muts[k].how))
+			if k%41 == 0 {
+				c.Sample(desc)
+			}
+			// a join/leave event legitimately starts a resize job that waits for the other nodes, and
+			// Server.Close waits for that job: end it the way an operator would, and do not let the
+			// harness wait on Close for ever (the worker process exits at the end of its share)
+			vx.Guard(func() { api.ResizeAbort() })
+			closed := make(chan struct{})
+			go func() { vx.Guard(func() { srv.Close() }); close(closed) }()
+			select {
+			case <-closed:
+			case <-time.After(5 * time.Second):
+				c.Outcome("ClusterMessage(well-formed)|server-close-abandoned")
+			}
+		}
+		prog("done")
+	}, nil)
+}
 
 func c06Samples() []pilosa.Message {
 	uri := pilosa.URI{Scheme: "http", Host: "h", Port: 1}
@@ -43,7 +266,8 @@ func c06Samples() []pilosa.Message {
 	}
 }
 
-func c06ClusterMessages(c *vx.Check) {
+func c06ClusterMessages(c *vx.Check, progDir string) {
+	defer c06WellFormed(c, progDir)
 	ser := proto.Serializer{}
 	var bodies [][]byte
 	var names []string
